@@ -17,21 +17,24 @@ Open Scope nat_scope.
 
 (* ------------------------------------------------------------------------------------------
    C16_accepted_resolves: identifier / member-path, method and function positions.
-   The FULL statements (what the property asks) are FALSE of the pinned tree; each recorded
-   finding has a decidable carve-out predicate and a refutation with a replayed witness. *)
+   Since fix b9d2c0f (conf.FieldsFromStruct resolves every name with Go's own rule) the function
+   position holds at FULL strength and bare identifiers need one carve-out only (method names).
+   The full statements of the member-path, method and map-call positions are still FALSE of the
+   tree (checker/types.go fieldType / methodType, vm/runtime.go FetchFn): each open finding has a
+   decidable carve-out predicate and a refutation with a replayed witness. *)
 Definition C16_accepted_resolves_full_statement : Prop :=
   accepted_resolves_path_full_statement /\ accepted_resolves_method_full_statement /\
   accepted_resolves_func_full_statement /\ accepted_resolves_map_func_full_statement.
 
-Theorem C16_accepted_resolves_refuted_unexported :
-  K_unexported Wit.te (TStruct "WithUnexp") "lower" = true /\ ~ accepted_resolves_path_full_statement.
+Theorem C16_accepted_resolves_refuted_unexported_member :
+  K_unexported_step Wit.te (TStruct "WithUnexp") "lower" = true /\ ~ accepted_resolves_path_full_statement.
 Proof. exact accepted_resolves_refuted_unexported. Qed.
-Print Assumptions C16_accepted_resolves_refuted_unexported.
+Print Assumptions C16_accepted_resolves_refuted_unexported_member.
 
-Theorem C16_accepted_resolves_refuted_unexported_call :
-  K_unexported Wit.te (TStruct "WithUnexp") "fn" = true /\ ~ accepted_resolves_func_full_statement.
-Proof. exact accepted_resolves_func_refuted_unexported. Qed.
-Print Assumptions C16_accepted_resolves_refuted_unexported_call.
+Theorem C16_accepted_resolves_refuted_unexported_member_call :
+  K_unexported_step Wit.te (TStruct "WithUnexp") "fn" = true /\ ~ accepted_resolves_method_full_statement.
+Proof. exact accepted_resolves_method_refuted_unexported. Qed.
+Print Assumptions C16_accepted_resolves_refuted_unexported_member_call.
 
 Theorem C16_accepted_resolves_refuted_method_ident :
   K_method_ident Wit.te (TStruct "M1") "Foo" = true /\ ~ accepted_resolves_path_full_statement.
@@ -59,39 +62,50 @@ Proof. exact accepted_resolves_map_func_refuted. Qed.
 Print Assumptions C16_accepted_resolves_refuted_funcmap.
 
 Theorem C16_accepted_resolves_full_statement_refuted : ~ C16_accepted_resolves_full_statement.
-Proof. intros [H _]. exact (proj2 accepted_resolves_refuted_unexported H). Qed.
+Proof. intros [H _]. exact (proj2 accepted_resolves_refuted_member_ambiguous H). Qed.
 Print Assumptions C16_accepted_resolves_full_statement_refuted.
 
 (* identifier and member path n0.n1...: struct environments (T or *T).  Scope hypotheses:
    path_scope (every base on the path is a struct / pointer to struct with acyclic embedding, or
    a map[string]T whose key is populated - accesses through interface{} are dynamically typed).
-   Carve-outs: K_method_ident, K_unexported, K_member_multi. *)
+   Carve-outs: K_method_ident for n0; K_unexported_step, K_member_multi for the MEMBER steps. *)
 Theorem C16_accepted_resolves_path : forall te perm, valid_perm perm -> wf_tenv te = true ->
   forall T sn tb n0 ns tau keys k,
-  structish T = Some sn -> fuel_ok te (fuel0 te) (TStruct sn) = true ->
+  structish T = Some sn ->
   create_types_table te perm (EStruct T) = Some tb ->
   check_access te tb (APath n0 ns) = LFound (CVal tau) ->
   (forall t0, check_ident tb n0 = LFound t0 -> path_scope te keys t0 ns = true) ->
   S (List.length ns) * fuel0 te <= k ->
   K_method_ident te T n0 = false ->
-  K_unexported te T n0 = false ->
   (forall t0, check_ident tb n0 = LFound t0 ->
      path_K te (K_unexported_step te) t0 ns = false /\ path_K te (K_member_multi te) t0 ns = false) ->
   exists v, run_access te false (populate te keys k T) (APath n0 ns) = Ok v /\ conforms v tau.
 Proof. exact accepted_resolves_path. Qed.
 Print Assumptions C16_accepted_resolves_path.
 
+(* bare identifier: every accepted name that is no method resolves (unexported fields are no
+   longer accepted: fix b9d2c0f) *)
+Theorem C16_accepted_resolves_ident : forall te perm, valid_perm perm -> wf_tenv te = true ->
+  forall T sn tb n0 tau keys k,
+  structish T = Some sn ->
+  create_types_table te perm (EStruct T) = Some tb ->
+  check_access te tb (APath n0 []) = LFound (CVal tau) ->
+  fuel0 te <= k ->
+  K_method_ident te T n0 = false ->
+  exists v, run_access te false (populate te keys k T) (APath n0 []) = Ok v /\ conforms v tau.
+Proof. exact accepted_resolves_ident. Qed.
+Print Assumptions C16_accepted_resolves_ident.
+
 (* method position n0.n1...m(): the callable is a method of the base type's method set
    (K_promoted_only = false) or a function-valued field on which methodType and fieldType agree *)
 Theorem C16_accepted_resolves_method : forall te perm, valid_perm perm -> wf_tenv te = true ->
   forall T sn tb n0 ns m c keys k,
-  structish T = Some sn -> fuel_ok te (fuel0 te) (TStruct sn) = true ->
+  structish T = Some sn ->
   create_types_table te perm (EStruct T) = Some tb ->
   check_access te tb (AMethod n0 ns m) = LFound c ->
   (forall t0, check_ident tb n0 = LFound t0 -> path_scope te keys t0 ns = true) ->
   S (S (List.length ns)) * fuel0 te <= k ->
   K_method_ident te T n0 = false ->
-  K_unexported te T n0 = false ->
   (forall t0, check_ident tb n0 = LFound t0 ->
      path_K te (K_unexported_step te) t0 ns = false /\ path_K te (K_member_multi te) t0 ns = false) ->
   (forall t0 t, check_ident tb n0 = LFound t0 -> check_path te t0 ns = LFound t ->
@@ -104,13 +118,12 @@ Theorem C16_accepted_resolves_method : forall te perm, valid_perm perm -> wf_ten
 Proof. exact accepted_resolves_method. Qed.
 Print Assumptions C16_accepted_resolves_method.
 
-(* function position n(): methods of the environment and function-valued fields *)
+(* function position n(): methods of the environment and function-valued fields - FULL strength *)
 Theorem C16_accepted_resolves_func : forall te perm, valid_perm perm -> wf_tenv te = true ->
   forall T sn tb n c keys k,
-  structish T = Some sn -> fuel_ok te (fuel0 te) (TStruct sn) = true ->
+  structish T = Some sn ->
   create_types_table te perm (EStruct T) = Some tb ->
   check_access te tb (AFunc n) = LFound c -> fuel0 te <= k ->
-  K_unexported te T n = false ->
   exists v, run_access te false (populate te keys k T) (AFunc n) = Ok v /\ cres_conforms v c.
 Proof. exact accepted_resolves_func. Qed.
 Print Assumptions C16_accepted_resolves_func.
@@ -139,50 +152,33 @@ Theorem C16_accepted_resolves_map_func : forall te perm, valid_perm perm ->
 Proof. exact accepted_resolves_map_func. Qed.
 Print Assumptions C16_accepted_resolves_map_func.
 
-(* all positions together *)
+(* the two top-level positions together *)
 Theorem C16_accepted_resolves :
   (forall te perm, valid_perm perm -> wf_tenv te = true ->
    forall T sn tb n0 ns tau keys k,
-   structish T = Some sn -> fuel_ok te (fuel0 te) (TStruct sn) = true ->
+   structish T = Some sn ->
    create_types_table te perm (EStruct T) = Some tb ->
    check_access te tb (APath n0 ns) = LFound (CVal tau) ->
    (forall t0, check_ident tb n0 = LFound t0 -> path_scope te keys t0 ns = true) ->
    S (List.length ns) * fuel0 te <= k ->
-   K_method_ident te T n0 = false -> K_unexported te T n0 = false ->
+   K_method_ident te T n0 = false ->
    (forall t0, check_ident tb n0 = LFound t0 ->
       path_K te (K_unexported_step te) t0 ns = false /\ path_K te (K_member_multi te) t0 ns = false) ->
    exists v, run_access te false (populate te keys k T) (APath n0 ns) = Ok v /\ conforms v tau)
-  /\
-  (forall te perm, valid_perm perm -> wf_tenv te = true ->
-   forall T sn tb n c keys k,
-   structish T = Some sn -> fuel_ok te (fuel0 te) (TStruct sn) = true ->
-   create_types_table te perm (EStruct T) = Some tb ->
-   check_access te tb (AFunc n) = LFound c -> fuel0 te <= k ->
-   K_unexported te T n = false ->
-   exists v, run_access te false (populate te keys k T) (AFunc n) = Ok v /\ cres_conforms v c).
+  /\ accepted_resolves_func_full_statement.
 Proof. exact (conj accepted_resolves_path accepted_resolves_func). Qed.
 Print Assumptions C16_accepted_resolves.
 
 (* ------------------------------------------------------------------------------------------
-   C16_struct_complete: what Go resolves to an exported member is accepted, with that type. *)
+   C16_struct_complete: what Go resolves to an exported member is accepted, with that type.
+   FULL strength since fix b9d2c0f (the carve-outs K_shadow_order / K_depth are gone). *)
 Definition C16_struct_complete_full_statement : Prop := struct_complete_full_statement.
-
-Theorem C16_struct_complete_refuted_shadow_order :
-  K_shadow_order Wit.te (TStruct "ShadowBefore") "X" = true /\ ~ C16_struct_complete_full_statement.
-Proof. exact struct_complete_refuted_shadow_order. Qed.
-Print Assumptions C16_struct_complete_refuted_shadow_order.
-
-Theorem C16_struct_complete_refuted_depth :
-  K_depth Wit.te (TStruct "DiffDepth") "X" = true /\ ~ C16_struct_complete_full_statement.
-Proof. exact struct_complete_refuted_depth. Qed.
-Print Assumptions C16_struct_complete_refuted_depth.
 
 Theorem C16_struct_complete : forall te perm, valid_perm perm -> wf_tenv te = true ->
   forall T sn tb name p tau,
   structish T = Some sn -> fuel_ok te (fuel0 te) (TStruct sn) = true ->
   create_types_table te perm (EStruct T) = Some tb ->
   go_resolve te T name = RField p tau true ->
-  K_shadow_order te T name = false -> K_depth te T name = false ->
   check_ident tb name = LFound tau.
 Proof. exact struct_complete_fields. Qed.
 Print Assumptions C16_struct_complete.
@@ -198,14 +194,47 @@ Theorem C16_struct_complete_methods : forall te perm, valid_perm perm -> wf_tenv
 Proof. exact struct_complete_methods. Qed.
 Print Assumptions C16_struct_complete_methods.
 
-(* the checker's soundness direction for the table itself, with NO carve-out: a non-ambiguous
-   field entry of FieldsFromStruct is the unique shallowest field of Go's rule *)
-Theorem C16_table_entry_is_go_field : forall te, wf_tenv te = true ->
-  forall n t sn name tg, fuel_ok te n t = true -> dereference t = TStruct sn ->
+(* both directions at once: an identifier that is no method name is accepted with type tau
+   EXACTLY when Go resolves it to an exported field of type tau *)
+Theorem C16_ident_accepted_iff_go : forall te perm, valid_perm perm -> wf_tenv te = true ->
+  forall T sn tb name tau,
+  structish T = Some sn -> fuel_ok te (fuel0 te) (TStruct sn) = true ->
+  create_types_table te perm (EStruct T) = Some tb ->
+  method_by_name te T name = None ->
+  (check_ident tb name = LFound tau <-> exists p, go_resolve te T name = RField p tau true).
+Proof. exact ident_accepted_iff_go. Qed.
+Print Assumptions C16_ident_accepted_iff_go.
+
+(* a non-ambiguous entry of FieldsFromStruct is the unique shallowest field of Go's rule, and exported *)
+Theorem C16_table_entry_is_go_field : forall te,
+  forall n t sn name tg, dereference t = TStruct sn ->
   ffs_name te n t name = Some tg -> tg_amb tg = false ->
-  exists d p f, resolves_at te sn name d p f /\ tg = field_tag f /\ d < n.
+  exists d p f, resolves_at te sn name d p f /\ tg = field_tag f /\ fd_exp f = true /\ d < fuel0 te.
 Proof. exact ffs_name_sound. Qed.
 Print Assumptions C16_table_entry_is_go_field.
+
+(* historical (findings fixed by b9d2c0f), about the OLD algorithm kept as ffs_old *)
+Example C16_fixed_shadow_order_old_algorithm :
+  dup_class Wit.te (fuel0 Wit.te) (TStruct "ShadowBefore") "X" = DShadowOrder /\
+  tget "X" (Wit.tbl_old "ShadowBefore") = Some amb_tag /\
+  go_resolve Wit.te (TStruct "ShadowBefore") "X" = RField [0] TString true /\
+  check_ident (Wit.tbl (EStruct (TStruct "ShadowBefore"))) "X" = LFound TString.
+Proof. exact old_table_shadow_order. Qed.
+
+Example C16_fixed_depth_old_algorithm :
+  dup_class Wit.te (fuel0 Wit.te) (TStruct "DiffDepth") "X" = DMulti /\
+  tget "X" (Wit.tbl_old "DiffDepth") = Some amb_tag /\
+  go_resolve Wit.te (TStruct "DiffDepth") "X" = RField [0; 0] Wit.tint true /\
+  check_ident (Wit.tbl (EStruct (TStruct "DiffDepth"))) "X" = LFound Wit.tint.
+Proof. exact old_table_depth. Qed.
+
+Example C16_fixed_unexported_top_level :
+  tget "lower" (Wit.tbl_old "WithUnexp") = Some (mkTag Wit.tint false false) /\
+  tget "lower" (Wit.tbl (EStruct (TStruct "WithUnexp"))) = None /\
+  check_access Wit.te (Wit.tbl (EStruct (TStruct "WithUnexp"))) (AFunc "fn") = LMissing /\
+  tget "U" (Wit.tbl (EStruct (TStruct "WithUnexp"))) = Some (mkTag Wit.tint false false) /\
+  tget "unexp" (Wit.tbl (EStruct (TStruct "WithUnexp"))) = None.
+Proof. exact old_table_unexported. Qed.
 
 (* ------------------------------------------------------------------------------------------
    C16_doc_exact: the documentation lists exactly the accepted top-level names and the fixed
@@ -242,7 +271,6 @@ Print Assumptions C16_doc_perm_independent.
 
 (* ------------------------------------------------------------------------------------------
    non-vacuity: non-trivial inputs meet every hypothesis *)
-Definition HolderT : ty := TStruct "Holder".
 Definition holder_tb : table := Wit.tbl (EStruct HolderT).
 
 (* P.X: P *Deeper, X two embedding levels down, one of them through a pointer *)
@@ -251,7 +279,7 @@ Example C16_path_nonvacuous :
   create_types_table Wit.te perm_rev (EStruct HolderT) <> None /\
   check_access Wit.te holder_tb (APath "P" ["X"]) = LFound (CVal TString) /\
   path_scope Wit.te ["k"] (TPtr (TStruct "Deeper")) ["X"] = true /\
-  K_method_ident Wit.te HolderT "P" = false /\ K_unexported Wit.te HolderT "P" = false /\
+  K_method_ident Wit.te HolderT "P" = false /\
   path_K Wit.te (K_unexported_step Wit.te) (TPtr (TStruct "Deeper")) ["X"] = false /\
   path_K Wit.te (K_member_multi Wit.te) (TPtr (TStruct "Deeper")) ["X"] = false /\
   go_resolve Wit.te (TPtr (TStruct "Deeper")) "X" = RField [0; 0; 0] TString true /\
@@ -293,14 +321,14 @@ Proof. vm_compute. repeat split. Qed.
    through a pointer from depth 3, a promoted method *)
 Example C16_complete_nonvacuous :
   go_resolve Wit.te (TStruct "ShadowAfter") "X" = RField [1] TString true /\
-  K_shadow_order Wit.te (TStruct "ShadowAfter") "X" = false /\ K_depth Wit.te (TStruct "ShadowAfter") "X" = false /\
   check_ident (Wit.tbl (EStruct (TStruct "ShadowAfter"))) "X" = LFound TString /\
   go_resolve Wit.te (TPtr (TStruct "Deeper")) "Z" = RField [0; 0; 1] TBool true /\
-  K_depth Wit.te (TPtr (TStruct "Deeper")) "Z" = false /\
   check_ident (Wit.tbl (EStruct (TPtr (TStruct "Deeper")))) "Z" = LFound TBool /\
   go_resolve Wit.te (TPtr HolderT) "PFoo" = RMethod (TFunc [TPtr HolderT] false [TString]) /\
   go_resolve Wit.te (TStruct "SameDepth") "X" = RAmbiguous /\
-  check_ident (Wit.tbl (EStruct (TStruct "SameDepth"))) "X" = LMissing.
+  check_ident (Wit.tbl (EStruct (TStruct "SameDepth"))) "X" = LMissing /\
+  go_resolve Wit.te (TStruct "DiffDepthRev") "X" = RField [1; 0] Wit.tint true /\
+  check_ident (Wit.tbl (EStruct (TStruct "DiffDepthRev"))) "X" = LFound Wit.tint.
 Proof. vm_compute. repeat split. Qed.
 
 Example C16_doc_nonvacuous :
